@@ -463,7 +463,7 @@ theorem read_row (txs : List Tx) (t : Tx) (ht : t ∈ txs) (hv : t.valid = true)
             affiliate := (rowGet (txs.map Tx.toCsv) t.toCsv .affiliate).bind
               (fun s => if (trim s).isEmpty then none else some (fromStrep s)),
             sfl := o_sfl, split := o_split, readIndex := idx }, ?_, ?_⟩
-  · unfold csvTxOfValues
+  · unfold csvTxOfValues csvFields
     simp only [g_td, g_sd, g_legacy, g_act, g_sh', g_aps', g_comm', g_fx', g_cfx', g_sfl', g_split',
       bind, Except.bind, pure, Except.pure, optParse_none]
     rfl
